@@ -16,7 +16,7 @@
 (* Pointer naming and OAIGen de-duplication are specified relationally     *)
 (* (FlattenProps: phase contracts), not constructively.                    *)
 (***************************************************************************)
-EXTENDS FlattenProps
+EXTENDS FlattenProps, Classify
 
 DefPath(n) == <<"definitions", n>>
 RefToDef(n) == Mk(("$ref" :> <<"root", "definitions", n>>), <<>>)
@@ -144,11 +144,37 @@ NameLoop(doc, fuel) ==
   ELSE LET k == CHOOSE x \in I : \A y \in I : Len(y) <= Len(x)
        IN NameLoop(NameOne(doc, k, GenName(k), MarkerFor(k)), fuel - 1)
 
-\* ---- the whole pipeline, for bundles without anonymous pointers and without name collisions ------------------------------
+\* ---- step 6 as a loop (namePointers + flattenAnonPointer): the DECISIONS, for bundles without name collisions -----------------
+\* every anonymous pointer, deepest holder first (among holders of equal depth the code orders by key: any order is explored
+\* by taking an arbitrary one, the result must not depend on it for the properties to hold)
+AnonPointers(doc) == { x \in RefsIn(doc) : x[2][1] = "root" /\ ~IsTopLevelRef(x[2]) }
+UnderShared(r) == Len(r) >= 2 /\ r[2] \in {"parameters", "responses"}
+RECURSIVE PointerLoop(_, _)
+PointerLoop(doc, fuel) ==
+  LET P == AnonPointers(doc) IN
+  IF P = {} \/ fuel = 0 THEN doc
+  ELSE LET x  == CHOOSE y \in P : \A z \in P : Len(z[1]) <= Len(y[1])
+           k  == x[1]
+           t  == Deepest(doc, x[2], 16)
+       IN IF IsTopLevelRef(t) THEN PointerLoop(PointerTop(doc, k, t), fuel - 1)
+          ELSE IF ~Has(doc, Tail(t)) THEN doc          \* does not resolve: the code returns an error (outside W)
+          ELSE LET callers == { y \in P : Deepest(doc, y[2], 16) = t }
+                   simple  == ClassifyAt(("root" :> doc), t, {"date", "date-time", "uuid", "email"}).IsSimpleSchema
+               IN IF (~simple \/ Cardinality(callers) > 1) /\ ~UnderShared(t)
+                  THEN PointerLoop(NameWithDependants(doc, Tail(t), GenName(Tail(t)), MarkerFor(Tail(t)), At(doc, Tail(t))), fuel - 1)
+                  ELSE PointerLoop(PointerExpanded(doc, k, t), fuel - 1)
+\* stripPointersAndOAIGen without collisions: pointers, then (full mode) whatever complex schema an expansion inlined, until stable
+RECURSIVE Phase6(_, _, _)
+Phase6(doc, mode, fuel) ==
+  LET d1 == PointerLoop(doc, 32)
+      d2 == IF mode = "full" THEN NameLoop(d1, 32) ELSE d1
+  IN IF d2 = doc \/ fuel = 0 THEN d2 ELSE Phase6(d2, mode, fuel - 1)
+
+\* ---- the whole pipeline, for bundles without name collisions ------------------------------
 Phase1(b0, mode)   == IF mode = "expand" THEN ExpandAll(b0) ELSE ExpandShared(b0)
 Phase3(doc, ru)    == IF ru THEN DropShared(doc) ELSE doc
 Phase4(b0, doc)    == ImportLoop(b0, doc, <<>>, 16)
 Phase5(doc, mode)  == IF mode = "full" THEN NameLoop(doc, 32) ELSE doc
 Phase7(doc, ru)    == IF ru THEN RemoveAll(doc) ELSE doc
-FlattenModel(b0, mode, ru) == Phase7(Phase5(Phase4(b0, Phase3(Phase1(b0, mode), ru)), mode), ru)
+FlattenModel(b0, mode, ru) == Phase7(Phase6(Phase5(Phase4(b0, Phase3(Phase1(b0, mode), ru)), mode), mode, 4), ru)
 =============================================================================
